@@ -491,6 +491,7 @@ class FnSpec:
         self.ensures = []
         self.head = ""
         self.loops = {}
+        self.loopbodies = {}
         self.after = []
         self.props = None
         self.decreases = None
@@ -549,8 +550,13 @@ def parse_fn_directive(lines, defaults):
             fs.decreases = txt
         elif cur == "head":
             fs.head += txt + "\n"
+        elif cur.startswith("loopbody"):
+            fs.loopbodies[int(cur.split()[1])] = txt
         elif cur.startswith("loop"):
             fs.loops[int(cur.split()[1])] = txt
+        elif cur.startswith("before"):
+            m2 = re.match(r'before\s+"(.*?)"(?:\s+(\d+))?', cur)
+            fs.after.append((m2.group(1), int(m2.group(2) or 0), "BEFORE " + txt))
         elif cur.startswith("after"):
             m2 = re.match(r'after\s+"(.*?)"(?:\s+(\d+))?', cur)
             fs.after.append((m2.group(1), int(m2.group(2) or 0), txt))
@@ -560,7 +566,7 @@ def parse_fn_directive(lines, defaults):
 
     for ln in lines[1:]:
         s = ln.strip()
-        m = re.match(r'(requires|ensures|decreases|head|props|loop\s+\d+|after\s+"[^"]*"(?:\s+\d+)?)(?=\s|$)\s*(.*)$', s)
+        m = re.match(r'(requires|ensures|decreases|head|props|loopbody\s+\d+|loop\s+\d+|before\s+"[^"]*"(?:\s+\d+)?|after\s+"[^"]*"(?:\s+\d+)?)(?=\s|$)\s*(.*)$', s)
         if m and (cur is None or not ln.startswith("    ")):
             flush()
             cur = m.group(1)
@@ -639,6 +645,13 @@ def render_fn(idx, fs, table, ctx):
                 raise ExtractError("%s::%s has no loop #%d" % (fs.anchor, fs.name, k))
             inserts.setdefault(lp[k], []).append("\n" + txt + "\n")
             rules.fired.add("R9")
+    if fs.loopbodies:
+        lp = find_loops(body)
+        for k, txt in fs.loopbodies.items():
+            if k >= len(lp):
+                raise ExtractError("%s::%s has no loop #%d" % (fs.anchor, fs.name, k))
+            inserts.setdefault(lp[k] + 1, []).append("\nproof { " + txt + " }\n")
+            rules.fired.add("R9-anchored-hint")
     for (prefix, occ, txt) in fs.after:
         want = [t.s for t in lex(prefix)]
         found = -1
@@ -651,6 +664,10 @@ def render_fn(idx, fs, table, ctx):
                 seen += 1
         if found < 0:
             raise ExtractError("%s::%s: hint anchor %r not found" % (fs.anchor, fs.name, prefix))
+        if txt.startswith("BEFORE "):
+            inserts.setdefault(found, []).append("\nproof { " + txt[7:] + " }\n")
+            rules.fired.add("R9-anchored-hint")
+            continue
         # end of that statement: next `;` at relative depth 0
         depth = 0
         p = found
@@ -664,7 +681,10 @@ def render_fn(idx, fs, table, ctx):
                 elif s == ";" and depth == 0:
                     break
             p += 1
-        inserts.setdefault(p + 1, []).append("\nproof { " + txt + " }\n")
+        if txt.startswith("raw "):
+            inserts.setdefault(p + 1, []).append("\n" + txt[4:] + "\n")      # ghost declarations that must outlive the block
+        else:
+            inserts.setdefault(p + 1, []).append("\nproof { " + txt + " }\n")
         rules.fired.add("R9-anchored-hint")
     opts_b = dict(opts)
     opts_b["in_body"] = True
